@@ -303,8 +303,7 @@ def expectedGuards (action : String) : List VAtom :=
   let app : List VAtom := [.nodeIsOn, .appState "RUNNING"]
   let file : List VAtom := [.nodeIsOn, .folderExists, .folderNotDeleted, .folderFileExists, .fileNotDeleted]
   let folder : List VAtom := [.nodeIsOn, .folderExists, .folderNotDeleted]
-  if action ∈ ["do-nothing", "router-acl-add-rule", "router-acl-remove-rule", "firewall-acl-add-rule",
-               "firewall-acl-remove-rule"] then []
+  if action = "do-nothing" then []
   else if action = "node-startup" then [.nodeIsOff]
   else if action = "node-os-scan" then [.nodeIsOn, .nodeIsOn]
   else if action ∈ ["node-service-scan", "node-service-stop", "node-service-pause", "node-service-restart",
@@ -462,6 +461,11 @@ example : present schema (pickNode schema "Firewall") rootMgr exInv (tmpl "firew
   decide +kernel
 example : (dispatchK envAll exKids (instantiate exRho (tmpl "firewall-acl-add-rule").segs) 0).isReached = true := by
   decide +kernel
+/-- ACL edits on a powered-off firewall / router are refused by node-is-on on the port / `acl` edge (depth 3) -/
+example : ∃ v, dispatchK envNodeOff exKids (instantiate exRho (tmpl "firewall-acl-add-rule").segs) 0 = .failure 3 v ∧
+    exVn v = [.nodeIsOn] := ⟨exVid [.nodeIsOn], by decide +kernel⟩
+example : ∃ v, dispatchK envNodeOff exKids (instantiate exRho (tmpl "router-acl-remove-rule").segs) 0 = .failure 3 v ∧
+    exVn v = [.nodeIsOn] := ⟨exVid [.nodeIsOn], by decide +kernel⟩
 example : (dispatchK envAll exKids (instantiate exRho (tmpl "node-file-scan").segs) 0).isReached = true := by
   decide +kernel
 example : (dispatchK envAll exKids (instantiate exRho (tmpl "node-application-execute").segs) 0).isReached = true := by
